@@ -227,6 +227,27 @@ def check_reversal(idx, run):
               "non-unit steps start from the last iteration actually "
               "executed", "the reversed loop with a non-unit step no longer "
               "starts at stop - MOD(stop - start, step)", loc(mod, loop))
+    # the start offset may only be skipped for a step of exactly +1 / -1
+    offs = [st for st in ast.walk(loop) if isinstance(st, ast.If) and any(
+        isinstance(a, ast.Assign) and ast.unparse(a.targets[0]) == "offset"
+        for a in ast.walk(st))]
+    oku = False
+    why = "the unit-step test was not found"
+    if offs:
+        ttxt = " ".join(ast.unparse(offs[0].test).split())
+        why = f"the unit-step test is '{ttxt}'"
+        exact = ("in ['1', '-1']" in ttxt or "in ('1', '-1')" in ttxt or
+                 "in [1, -1]" in ttxt or "in (1, -1)" in ttxt or
+                 "abs(int(" in ttxt and "== 1" in ttxt)
+        regex = ".match(" in ttxt or ".search(" in ttxt
+        oku = exact and not regex or ".fullmatch(" in ttxt
+    run.check("C19.R2", oku, "AdjointVisitor.loop_node",
+              "the start offset is skipped only for a step of exactly 1 or "
+              "-1",
+              f"{why}: a literal step such as 12 that is taken for a unit "
+              f"step gives `do i = hi, lo, -12` without the "
+              f"hi - MOD(hi - lo, 12) start, so the adjoint visits other "
+              f"iterations than the tangent-linear loop", loc(mod, loop))
     run.check("C19.R2", "self._visit(node.children[3])" in ltxt,
               "AdjointVisitor.loop_node", "the loop body is transposed",
               "the body of an active loop is not transposed", loc(mod, loop))
